@@ -349,3 +349,48 @@ func customWriter(format ply.Format) {
 func ZZ_C04_CustomWriterLE()    { customWriter(ply.BinaryLittleEndian) }
 func ZZ_C04_CustomWriterBE()    { customWriter(ply.BinaryBigEndian) }
 func ZZ_C04_CustomWriterASCII() { F32Inputs = true; customWriter(ply.ASCII) }
+
+// two writes in a row through the package-level writer: the second file must not depend on the first. The first
+// mesh carries a colour and no normal (its property writers are not a prefix of the writer table), the second
+// carries normals.
+func ZZ_C04_TwoWrites() {
+	V := 1 + zz.Choose("V", zz.Bound("V"))
+	mk := func(name string) ([]vector3.Float64, []vector3.Float64) {
+		a, b := make([]vector3.Float64, V), make([]vector3.Float64, V)
+		for i := 0; i < V; i++ {
+			a[i], b[i] = sv3(fmt.Sprintf("%s.pos[%d]", name, i)), sv3(fmt.Sprintf("%s.aux[%d]", name, i))
+		}
+		return a, b
+	}
+	idx := make([]int, 3)
+	for i := range idx {
+		idx[i] = zz.Int(fmt.Sprintf("idx[%d]", i), 0, V-1)
+	}
+	p1, c1 := mk("first")
+	for i := range c1 {
+		c1[i] = vector3.New(0.25, 0.5, 0.75)
+	}
+	first := modeling.NewTriangleMesh(idx).SetFloat3Attribute(modeling.PositionAttribute, p1).SetFloat3Attribute(modeling.ColorAttribute, c1)
+	p2, n2 := mk("second")
+	second := modeling.NewTriangleMesh(idx).SetFloat3Attribute(modeling.PositionAttribute, p2).SetFloat3Attribute(modeling.NormalAttribute, n2)
+	zz.Reach("input")
+	format := ply.BinaryLittleEndian
+	if zz.Bool("ascii") {
+		format = ply.ASCII
+	}
+	zz.Assert(ply.Write(zz.NewBuf(), first, format) == nil, "first write failed")
+	buf := zz.NewBuf()
+	err := ply.Write(buf, second, format)
+	zz.Assert(err == nil, "second write failed")
+	if err != nil {
+		return
+	}
+	back, err := ply.ReadMesh(buf.Reader(-1))
+	zz.Assert(err == nil, "ply.ReadMesh failed on the second file")
+	if err != nil {
+		return
+	}
+	zz.Reach("read-back")
+	zz.Assert(back.PrimitiveCount() == 1, "second file: primitive count preserved")
+	sameAtF32(second, *back, "second of two writes")
+}
